@@ -623,3 +623,39 @@ M("norm-reject-field-constant-mismatch", ["C01"], [
     (_RC, '            key="_reject_to",', '            key=utils_REJECT,'),
     (_RC, 'class _RedisConsumer(ConsumerT):', 'from repid.connections.redis.utils import REJECT_TO_FIELD as utils_REJECT\n\n\nclass _RedisConsumer(ConsumerT):'),
 ], "R-C01-SOURCE")
+R("norm-r-runner-limiter-alias", ["C09", "C10", "C03", "C02"], [("repid/_runner.py", '''        async for key, payload, params in consumer:
+            actor = actors[key.topic]
+            if self._limiter.locked():
+                await consumer.pause()
+                await self._limiter.acquire()
+                await consumer.unpause()
+            else:
+                await self._limiter.acquire()
+            if self._tasks_started >= self.max_tasks:
+                # messages limit is exhausted: give the message back and stop consuming
+                self._limiter.release()
+                await self._conn.message_broker.reject(key)
+                return''', '''        limiter = self._limiter
+        broker = self._conn.message_broker
+        async for key, payload, params in consumer:
+            actor = actors[key.topic]
+            if limiter.locked():
+                await consumer.pause()
+                await limiter.acquire()
+                await consumer.unpause()
+            else:
+                await limiter.acquire()
+            if self._tasks_started >= self.max_tasks:
+                # messages limit is exhausted: give the message back and stop consuming
+                limiter.release()
+                await broker.reject(key)
+                return''')])
+R("norm-r-message-broker-alias", ["C16", "C02", "C13"], [("repid/message.py", '''        await self._connection.message_broker.nack(self._key)
+
+        self.__read_only = True
+''', '''        broker = self._connection.message_broker
+        await broker.nack(self._key)
+        logger.debug("Message {id_} was nacked.", extra={"id_": self._key.id_})
+
+        self.__read_only = True
+''')])
